@@ -277,15 +277,32 @@ def run(ctx, tier):
                                 for x_ in (pv_ or ()):
                                     if x_[0] == 'agg' and x_[2] == 'Some' and x_[3]:
                                         parent_vals |= set(x_[3][0][1])
-                        for sd in sides:
-                            for n_ in walk(sd):
-                                if n_[0] == 'field' and n_[2] == pf and any(m_[0] == 'index' for m_ in n_[1]):
-                                    parentish = True
-                            inner = set()
+                        def _inner(sd):
+                            out_ = set()
                             for n_ in sd:
-                                inner |= set(n_[3][0][1]) if (n_[0] == 'agg' and n_[2] == 'Some' and n_[3]) else {n_}
-                            if inner and parent_vals and inner == parent_vals:
-                                parentish = True        # compared with the very value stored as the new node's parent
+                                out_ |= set(n_[3][0][1]) if (n_[0] == 'agg' and n_[2] == 'Some' and n_[3]) else {n_}
+                            return out_
+
+                        def _is_new_parent(sd):
+                            # the parent link of the node just pushed, or the very value stored there
+                            inn = _inner(sd)
+                            if inn and parent_vals and inn == parent_vals:
+                                return True
+                            if not sd:
+                                return False
+                            for n_ in sd:
+                                if not (n_[0] == 'field' and n_[2] == pf and len(n_[1]) == 1):
+                                    return False
+                                ix_ = next(iter(n_[1]))
+                                if ix_[0] != 'index' or P.pushed_node_for_index(ctx, p, fn, ix_[1], ix_[2]) is None:
+                                    return False
+                            return True
+
+                        def _is_candidate(sd):
+                            return bool(sd) and frozenset(_inner(sd)) == frozenset(cs['J'])
+                        # "this neighbour IS the new node's parent": one side is the new node's parent, the other the candidate itself
+                        parentish = (_is_new_parent(sides[0]) and _is_candidate(sides[1])) or \
+                                    (_is_new_parent(sides[1]) and _is_candidate(sides[0]))
                         if parentish:
                             allowed.add((sb_, f_t if is_ne else t_t))   # it is the parent: skip
                 outside = frozenset(x for x in range(fn.nb) if x not in L['body'])
